@@ -137,13 +137,18 @@ package iohelp
 
 //@ define okW(ew *ErrorWriter) bool = len(ew.buffer) == 8 && ew.Writer != nil && (failed(ew.Writer) ==> ew.Err != nil)
 
+// uw(w): the writer bytes finally go to — the wrapped writer when w already is an *ErrorWriter, else w itself
+//@ define uw(w io.Writer) io.Writer = ite(istype(w, *ErrorWriter), asptr(w, *ErrorWriter).Writer, w)
+// okWI(w): w is usable as the argument of NewErrorWriter
+//@ define okWI(w io.Writer) bool = w != nil && (istype(w, *ErrorWriter) ==> okW(asptr(w, *ErrorWriter))) && (!istype(w, *ErrorWriter) ==> !failed(w))
+
 //@ func NewErrorWriter
 //@   requires w != nil
 //@   requires istype(w, *ErrorWriter) ==> okW(asptr(w, *ErrorWriter))
 //@   requires !istype(w, *ErrorWriter) ==> !failed(w)
-//@   ensures okW(result)
+//@   ensures result != nil && okW(result)
 //@   ensures istype(w, *ErrorWriter) ==> result == asptr(w, *ErrorWriter)
-//@   ensures !istype(w, *ErrorWriter) ==> isfresh(result) && result.Writer == w && result.Err == nil
+//@   ensures !istype(w, *ErrorWriter) ==> isfresh(result) && isfresh(result.buffer) && result.Writer == w && result.Err == nil
 //@   modifies fresh(ErrorWriter), fresh(byte)
 
 //@ func (*ErrorWriter).Write
@@ -244,14 +249,15 @@ package iohelp
 // what it delivers, failed(x) latches "some call on x returned an error".
 
 //@ define okR(er *ErrorReader) bool = len(er.buffer) == 8 && er.Reader != nil && (failed(er.Reader) ==> er.Err != nil)
+//@ define okRI(r io.Reader) bool = r != nil && (istype(r, *ErrorReader) ==> okR(asptr(r, *ErrorReader))) && (!istype(r, *ErrorReader) ==> !failed(r))
 
 //@ func NewErrorReader
 //@   requires r != nil
 //@   requires istype(r, *ErrorReader) ==> okR(asptr(r, *ErrorReader))
 //@   requires !istype(r, *ErrorReader) ==> !failed(r)
-//@   ensures okR(result)
+//@   ensures result != nil && okR(result)
 //@   ensures istype(r, *ErrorReader) ==> result == asptr(r, *ErrorReader)
-//@   ensures !istype(r, *ErrorReader) ==> isfresh(result) && result.Reader == r && result.Err == nil
+//@   ensures !istype(r, *ErrorReader) ==> isfresh(result) && isfresh(result.buffer) && result.Reader == r && result.Err == nil
 //@   modifies fresh(ErrorReader), fresh(byte), tr(), hw()
 
 //@ func (*ErrorReader).Read
